@@ -89,6 +89,7 @@ class EngineBase:
         self.recfuncs = _RECFUNCS     # z3 recursive functions are global to the z3 context
         self.binders = []
         self.in_old = 0
+        self.snapshot_idx = {}
 
     # ------------------------------------------------------------ binders
     def push_binder(self, bvs):
